@@ -18,11 +18,26 @@ def run(tier, seed):
     cov['caps_hit'] = cov['caps_hit'] + fcov['caps_hit']
     cov['exhaustive'] = not cov['caps_hit']
     viol.extend(fviol)
+    # the process pool under thread schedules (2 workers): crash points and end state
+    from . import C19
+    ptot, pviol = C19.run_job_list(C19.c06_jobs(tier), seed, tier)
+    cov['process_pool_in_process'] = ptot.to_dict()
+    cov['states'] += ptot.states
+    cov['transitions'] += ptot.transitions
+    for k in ('evaluations', 'executions', 'traces_validated_against_impl'):
+        cov[k] += ptot.executions
+    cov['distinct_nontrivial'] += len(ptot.signatures)
+    cov['caps_hit'] = cov['caps_hit'] + ptot.caps_hit
+    cov['exhaustive'] = not cov['caps_hit']
+    viol.extend(pviol)
     return {'coverage': cov, 'violations': viol, 'level': LEVEL,
             'assumptions': common.ASSUMPTIONS + ['legacy S3Transfer and the process-pool submitter/worker loop are driven under one canonical (sequential) schedule']}
 
 
 def replay(data):
+    if data.get('kind') == 'pp':
+        from . import C19
+        return C19.replay(data)
     if data.get('kind') == 'frontend':
         return frontends.replay(data)
     return common.replay_manager(data)
